@@ -54,7 +54,7 @@ def base_digest(path):
                 return
             tgt.update(name.encode())
             v = obj[()]
-            tgt.update(v if isinstance(v, bytes) else np.asarray(v).astype(str).tobytes()
+            tgt.update(v if isinstance(v, bytes) else repr(np.asarray(v).tolist()).encode()
                        if np.asarray(v).dtype == object else np.asarray(v).tobytes())
     with h5py.File(path, 'r') as f:
         f.visititems(visit)
